@@ -330,6 +330,42 @@ class ActGen:
         self.emit(depth, call)
         self.probe(depth, name)
 
+    def cond(self) -> str:
+        r = self.rng
+        pool = ["tick % 2 == 0", "tick % 2 == 1", "tick % 3 == 1", "tick > 1", "tick < 2", "tick == 0", "True", "False", "not tick % 2 == 0"]
+        if self.pots:
+            pool.append(f"{r.choice(self.pots)}.read() > {r.choice([0, 300, 511, 1022])}")
+        return r.choice(pool)
+
+    def stmt(self, depth: int, nest: int = 0) -> None:
+        """One operation, or a control structure around operations: device commands must behave the
+        same in every body (if / elif / else / for / while) the language allows them in."""
+
+        r = self.rng
+        if nest >= 2 or r.random() >= 0.3:
+            self.op(depth)
+            return
+        body = lambda: [self.stmt(depth + 1, nest + 1) for _ in range(r.choice([1, 1, 2]))]  # noqa: E731
+        kind = r.choice(["ifelse", "ifelse", "elif", "if", "for", "while"])
+        if kind in ("if", "ifelse", "elif"):
+            self.emit(depth, f"if {self.cond()}:")
+            body()
+            if kind == "elif":
+                self.emit(depth, f"elif {self.cond()}:")
+                body()
+            if kind != "if":
+                self.emit(depth, "else:")
+                body()
+        elif kind == "for":
+            self.emit(depth, f"for {self.fresh('j')} in range({r.choice([1, 2, 2, 3])}):")
+            body()
+        else:
+            w = self.fresh("w")
+            self.emit(depth, f"{w} = 0")
+            self.emit(depth, f"while {w} < {r.choice([1, 2, 2])}:")
+            body()
+            self.emit(depth + 1, f"{w} += 1")
+
     def generate(self) -> str:
         r = self.rng
         self.pending = []
@@ -351,17 +387,21 @@ class ActGen:
         all_devices = self.devices
         if usable:
             self.devices = usable
+            self.emit(0, "tick = 0")
             for _ in range(n_setup):
-                self.op(0)
+                self.stmt(0)
+        else:
+            self.emit(0, "tick = 0")
         self.devices = all_devices
         self.emit(0, "while True:")
         for line in in_loop_decls:
             self.emit(1, line)
+        self.emit(1, "tick = tick + 1")
         n_loop = r.randint(1, 7 if self.tier == "quick" else 14)
         for _ in range(n_loop):
             if r.random() < 0.15:
                 self.emit(1, f"sleep({r.choice([0, 1, 5, 12])})")
-            self.op(1)
+            self.stmt(1)
         return "\n".join(self.lines) + "\n"
 
     @staticmethod
